@@ -494,7 +494,7 @@ func (v *Verifier) verifyFunc(fn *ssa.Function, fc *FuncContract, em *Emitter, g
 	if fc != nil {
 		for _, cs := range fc.Calls {
 			if !fx.usedCallSites[cs] && cs.Ordinal != -1 {
-				fx.clauseFaults = append(fx.clauseFaults, fmt.Sprintf("contract of %s: call site %s#%d not found", fx.relName(), cs.Callee, cs.Ordinal))
+				fx.clauseFaults = append(fx.clauseFaults, fmt.Sprintf("contract of %s: call site %s#%d %s not found", fx.relName(), cs.Callee, cs.Ordinal, cs.LineHas))
 			}
 		}
 		for _, rs := range fc.Returns {
